@@ -180,6 +180,7 @@ type SO = ArcSwapAny<Option<Arc<u64>>, HybridStrategy<DefaultConfig>>;
 
 // @harness name=c20_serialize_transparent props=C20 tier=quick flavour=nostd timeout=2400 cfg=feature="serde" fn=ArcSwapAny::serialize
 #[cfg_attr(kani, kani::proof)]
+#[cfg_attr(kani, kani::stub(crate::debt::Debt::pay_all, crate::debt::verif_h::pay_all_stub))]
 #[cfg_attr(kani, kani::unwind(12))]
 pub(crate) fn c20_serialize_transparent() {
     let x: u64 = nd::any_usize() as u64;
@@ -208,6 +209,7 @@ pub(crate) fn c20_serialize_transparent() {
 
 // @harness name=c20_deserialize_roundtrip props=C20 tier=quick flavour=nostd timeout=2400 cfg=feature="serde" fn=ArcSwapAny::deserialize
 #[cfg_attr(kani, kani::proof)]
+#[cfg_attr(kani, kani::stub(crate::debt::Debt::pay_all, crate::debt::verif_h::pay_all_stub))]
 #[cfg_attr(kani, kani::unwind(12))]
 pub(crate) fn c20_deserialize_roundtrip() {
     let x: u64 = nd::any_usize() as u64;
